@@ -17,6 +17,51 @@ PROPS = {
         technique="Lean 4 proof (greedy walk = satisfiability, induction over axes and histories) + differential correspondence",
         design="§4 C01",
     ),
+    "C02": dict(
+        text="Kernel-checked theorems that the sequential bind-or-compare walk over all annotated values of a call is satisfiability (one total assignment matches every value), hence invariant under permutation of the parameters and under the wrapper's re-check of the parameters; the wrapper's parameter pass is proved equal to that walk. Every generated call is run on the real code under {typeguard, beartype} x {new-style, old-style, dataclass} x 3 parameter orders x {positional, keyword, mixed}; all verdicts must equal the model's.",
+        note="Trusted (validated on every run, not proved): typeguard 2.x and beartype call isinstance once per annotated parameter / return value inside the context and raise iff one answers False. Annotations with unions are outside the quantifier.",
+        technique="Lean 4 proof (walk = satisfiability, List.Perm invariance) + cross-configuration differential run",
+    ),
+    "C03": dict(
+        text="The quantifier is a finite table and is decided completely: `decide +kernel` proves, over the category table re-extracted from the current source and the dtype rows re-gathered from the installed numpy / ml_dtypes / jax / tensorflow, that every (dtype, category) cell agrees with the documented hierarchy, each precision class accepts exactly its dtype, the verdict is the same for every library carrying the same dtype, and the hierarchy identities hold for all names; the same cells are then evaluated on the real code (complete enumeration, incl. jit tracers, PRNG keys, structured dtypes, duck arrays, user categories with strings and regexes).",
+        note="Trusted: harness/envrows.py (canonical name / kind of each dtype as the libraries report it), the hand transcription of docs/api/array.md into Spec/Dtype.lean, Python's re for regex categories. Dtypes no exported class names (float128, float8_e4m3, float4/6) are 'unspecified': no claim.",
+        technique="Lean 4 proof by kernel evaluation of the regenerated finite table + complete enumeration on the implementation",
+    ),
+    "C04": dict(
+        text="Kernel-checked theorems: an array check answering False / raising AnnotationError / raising any exception the handler covers returns the memo unchanged (wherever in the walk the mismatch is), the handler extracted from the current source covers BaseException and restores all four dictionaries, a passing array check is idempotent, and a PyTree check that does not answer True restores the memo whatever the leaf type; lifted to manual checks at any program point. On the real code: bindings before == after for every non-True check with the mismatch planted at every axis / leaf index and for raising variants (unbound symbolic / structure name, Exception and BaseException from {arg} formatting, custom flatteners, leaf __instancecheck__), and repetition of passing checks.",
+        note="Idempotence is proved for array annotations; for PyTrees it is evaluated on the implementation only. Exceptions raised by isinstance(obj, array_type) itself happen before any binding.",
+        technique="Lean 4 proof (rollback by case analysis of the walk; idempotence via stability of the walk under larger memos) + direct before/after evaluation",
+    ),
+    "C05": dict(
+        text="Kernel-checked theorems, by mutual induction over all programs of nested calls (new-style, old-style, typechecker=None), context blocks, manual checks and exits by return / Exception / BaseException / non-binding call: the stack is balanced and every frame below the top unchanged; a block or context-opening call leaves the caller's stack exactly as it was; the callee's observations do not depend on the callers' bindings; top-level checks remember nothing; the wrapper skeleton extracted from the current source (pop in finally, bind before push, __exit__ pops always) is the good one and each fact is shown to matter. Random programs are run on the real code: caller's bindings and depth before/after every statement, transcript vs the model, generators / async generators / coroutines keep no context open.",
+        note="Modelled: CPython try/finally and generator semantics; metadata of wrappers is C07.",
+        technique="Lean 4 proof (invariant by mutual induction over programs, skeleton facts extracted from source) + program-level differential run",
+    ),
+    "C12": dict(
+        text="Kernel-checked theorems: for every program and every fault (Exception or BaseException raised by user code at any call-out: argument formatting, custom flattener, leaf __instancecheck__, wrapped function) the flatten-mode flag and the '?'-leaf label are off afterwards (rest invariant, by mutual induction over leaf types / values / programs, given the two try/finally facts extracted from the source, each shown to matter); at rest the verdict is a function of value, annotation and the current frame only. On the real code: fault enumeration over the catalogue x call-out points x 2 classes followed by the probe set and a peek at the thread-local storage, plus random histories of public-API operations followed by probes of a fixed annotation object.",
+        note="Known finding F2 (old-style decoration of a generator function makes the shared annotation object transparent) is reported as KNOWN-FINDING. Call-outs the model does not represent (array attribute access, array-type __instancecheck__, a raising typechecker) are evaluated on the implementation only.",
+        technique="Lean 4 proof (rest invariant by mutual structural induction; skeleton facts from source) + fault enumeration",
+    ),
+    "C14": dict(
+        text="Kernel-checked theorems about the model of the dim-string parser (total by construction: a value or ValueError): any two orderings of the same modifier characters parse identically unless one ends in '#'; '...' is '*_' in any position; leading / trailing / repeated whitespace only separates tokens; 'name=' prefixes are ignored; each documented illegal form is ValueError; concatenation law for nested annotations. On the real code: exhaustive over every token of <=4 modifier characters (all orders, with and without a 'd=' prefix at every position) x 5 bases, all sequences of <=2 tokens from a reduced set, random whitespace, non-string specifications, an exotic/Unicode totality stream; exception class and acceptance vectors compared with the model and within each order family.",
+        note="ASCII model; '*', '?' or 'x=' with an empty base, signed/underscored integers and symbolic garbage are the §6 zones (model mirrors the code, no claim).",
+        technique="Lean 4 proof (permutation invariance of modifier stripping, whitespace splitting) + exhaustive token enumeration",
+    ),
+    "C07": dict(
+        text="Kernel-checked theorems about the wrapper's control flow and name generation: _gensym terminates and is fresh for every finite name set; every identifier the synthesised def uses is distinct from every other, from all parameter names and from the function name; on a binding new-style call the body starts exactly once when the parameter pass accepts and not at all when it rejects; a non-binding call raises before any context is opened; the body's own exception passes through; the source calls the wrapped function at exactly one place. On the real code: generated signatures over all five parameter kinds, defaults, colliding names, def / lambda / async def, all descriptor kinds, both typecheckers: call counter, identity of arguments and result, exception class, metadata, inspect.signature, and the generated identifier scope against the model.",
+        note="Metadata (__name__, __qualname__, __doc__, __module__, signature, descriptor kind) is functools.wraps / descriptor unwrapping and is evaluated on the implementation only. Known finding F4 (async def with a return annotation) is reported as KNOWN-FINDING.",
+        technique="Lean 4 proof (pigeonhole freshness of gensym, wrapper control flow) + generated-signature differential run",
+    ),
+    "C13": dict(
+        text="Kernel-checked theorems: the outcome of a new-style call over array annotations is decided by the one sequential walk (returned iff accepted; TypeCheckError for parameters or return iff rejected; AnnotationError never becomes TypeCheckError); the error is a parameter error exactly when the parameter pass rejected and then the body never ran; the one-at-a-time re-check blames exactly the first parameter violating its annotation given the earlier ones and changes no binding; the bindings in force at detection are exactly those of the accepted checks; the source formats the current bindings and has the AnnotationError handler first. On the real code: ill-typed calls with the failure at every position (arrays, unions whose first alternative fails, tuples, PyTrees), both checkers, both values of the remove-stack switch: stage, blamed parameter (re-evaluated independently), listed bindings, __cause__.",
+        note="Message wording beyond stage sentence / parameter name / name=value lines is not constrained. With beartype only class-only annotations are compared (its traversal of tuple/union hints is not the modelled one).",
+        technique="Lean 4 proof (blame = first failing parameter via stability of accepted checks) + message oracle on generated ill-typed calls",
+    ),
+    "C19": dict(
+        text="Kernel-checked theorems: the switch parser accepts exactly booleans and 0/1/true/false in any ASCII case (explicit character-wise form) and rejects everything else and unknown items; with the flag set or no_type_check present the new-style wrapper IS the bare call (same body run, same outcome, no context, for every argument list); the flag is read at every call; the source tests the switches before bind/push, and testing later is shown to be observable. On the real code: all 50 case variants + booleans + junk for both switches and item spellings vs the model, the environment variable in fresh interpreters, every callable kind x both checkers x {flag before/after decoration, no_type_check above/below} x well/ill-typed/non-binding calls vs the undecorated callable, re-enabling, toggling programs vs the model.",
+        note="no_type_check applied to a classmethod/staticmethod/property object and old-style / typechecker=None wrappers are DESIGN §6 zones (no claim). ASCII model of str.lower().",
+        technique="Lean 4 proof (wrapper reduces to the bare call; case-insensitive parser characterisation) + exhaustive spellings and behavioural comparison",
+    ),
 }
 
 
